@@ -50,6 +50,8 @@ def marshaller(
     if not nodes:
         return routines.NoOpMarshaller(t=t, context=context, var=None)  # type: ignore[arg-type]
 
+    # `Any` members (also what a free type-variable normalizes to) have no node in the graph.
+    context[tp.Any] = routines.NoOpMarshaller(tp.Any, context)  # type: ignore[arg-type]
     # "root" type will always be the final node in the sequence.
     root = nodes[-1]
     for node in nodes:
